@@ -29,6 +29,42 @@ def crc32 (data : List UInt8) : BitVec 32 :=
 def update (crc : BitVec 32) (data : List UInt8) : BitVec 32 :=
   ~~~ (run (~~~ crc) data)
 
+/-! ### The message as a bit stream, and the damage patterns the checksum must detect
+
+The CRC is defined on the message *bit* stream: each byte contributes its bits least
+significant first (IEEE 802.3 transmission order), each message bit is xored into the low bit
+of the register, then the register makes one shift.  `run_eq_runBits` (proved in
+`Proofs/Crc32Burst`, restated as `C14_bit_serial`) shows `run` is exactly this, so the bit
+positions used by `BurstDamage` are the positions at which the LFSR consumes the bits. -/
+
+/-- Bits of one byte in the order the LFSR consumes them. -/
+def byteBits (b : UInt8) : List Bool :=
+  [b.toBitVec.getLsbD 0, b.toBitVec.getLsbD 1, b.toBitVec.getLsbD 2, b.toBitVec.getLsbD 3,
+   b.toBitVec.getLsbD 4, b.toBitVec.getLsbD 5, b.toBitVec.getLsbD 6, b.toBitVec.getLsbD 7]
+
+/-- The message bit stream: bit `8*k + j` is bit `j` of byte `k`. -/
+def bits (data : List UInt8) : List Bool := data.flatMap byteBits
+
+/-- Feed one message bit. -/
+def bitStep (c : BitVec 32) (m : Bool) : BitVec 32 :=
+  step1 (c ^^^ (if m then 1#32 else 0#32))
+
+def runBits (c : BitVec 32) (ms : List Bool) : BitVec 32 := ms.foldl bitStep c
+
+/-- `d'` is a damaged copy of `d`: same length, not identical, and all message bits that differ
+lie in one window of `w` consecutive bit positions (a burst of length ≤ `w`; `w = 1` is a single
+flipped bit, a window inside one byte is a changed byte). -/
+def BurstDamage (w : Nat) (d d' : List UInt8) : Prop :=
+  d.length = d'.length ∧ d ≠ d' ∧
+  ∃ s, s < 8 * d.length ∧
+    ∀ i, i < 8 * d.length → (bits d)[i]? ≠ (bits d')[i]? → s ≤ i ∧ i < s + w
+
+instance (w : Nat) (d d' : List UInt8) : Decidable (BurstDamage w d d') := by
+  unfold BurstDamage; infer_instance
+
+/-- Bytewise xor of a message with an error pattern of the same length. -/
+def xorBytes (d e : List UInt8) : List UInt8 := List.zipWith (· ^^^ ·) d e
+
 -- Published check value (a test of the transcription, not a proof).
 example : crc32 [0x31,0x32,0x33,0x34,0x35,0x36,0x37,0x38,0x39] = 0xCBF43926#32 := by decide +kernel
 
